@@ -35,7 +35,8 @@ LEVEL_NOTE = ('Inside the documented domain of the transformations (dedicated fr
               'constructs with a known finding are generated in gated slices only and reported per gate. The model of '
               'expected item names implements the documented renaming rules only.')
 RULE = ('schedlab project (5-12 routines) + dedicated drivers; 2 (quick) / 3 (thorough) sequences per project, each on a '
-        'fresh Scheduler. Non-trivial = a sequence of >= 1 steps ran, changed the set of item names or the sources, the '
+        'fresh Scheduler; 21 of every 64 projects are gated slices (one known-defect construct each, key gated:<construct>). '
+        'Non-trivial = a sequence of >= 1 steps ran, changed the set of item names or the sources, the '
         'outputs were re-parsed and the program was built and run; distinct = hash of sources + config + sequences.')
 CASES = {'quick': 100, 'thorough': 1500}
 MIN_NONTRIVIAL = {'quick': 45, 'thorough': 700}
@@ -43,8 +44,8 @@ ANCHORS = ['loki/transformations/build_system/dependency.py', 'loki/transformati
            'loki/transformations/dependency.py', 'loki/batch/scheduler.py', 'loki/batch/item_factory.py']
 REQUIRED_REACH = ['rekey_item_cache', 'rename_calls', 'rename_imports', 'module_wrap', '_create_duplicate_items',
                   'get_or_create_item_from_item', 'derive_module_name']
-REQUIRED_COUNTERS = {'sequences_run': 80, 'item_invariants_checked': 1000, 'model_comparisons': 80,
-                     'probe_logs_checked': 80, 'references_resolved': 1000, 'programs_run': 60}
+REQUIRED_COUNTERS = {'sequences_run': 60, 'item_invariants_checked': 1000, 'model_comparisons': 50,
+                     'probe_logs_checked': 50, 'references_resolved': 800, 'programs_run': 40, 'programs_equal': 30}
 ASSUMPTIONS = ['gfortran -O0 -fcheck=all is the reference semantics; the generated programs are well-defined integer '
                'accumulations, so duplication doubles and removal deletes a known contribution',
                'the FP frontend re-parse of the written files is trusted for finding calls and imports',
@@ -53,11 +54,10 @@ ASSUMPTIONS = ['gfortran -O0 -fcheck=all is the reference semantics; the generat
 BUDGET_S = {'quick': 400, 'thorough': 3000}
 CASE_TIMEOUT_S = 400
 
-GATES = {3: 'types', 5: 'called_from_internal', 6: 'intf_block', 7: 'multi_unit_file', 9: 'lists', 11: 'unused_imports',
-         13: 'full_features', 15: 'kernel_module_globals', 17: 'sibling_caller', 19: 'function_in_subgraph',
-         21: 'module_level_import', 23: 'mixed_role_module', 25: 'internal_in_subgraph', 27: 'internal_calls',
-         29: 'bare_external_wrap', 30: 'rem_then_rename', 28: 'dup_free_then_wrap', 26: 'dup_intf_then_rename',
-         24: 'dup_after_rename', 22: 'replicate', 20: 'dep_twice', 18: 'wrap_without_dep'}
+GATES = ['types', 'full_features', 'called_from_internal', 'intf_block', 'multi_unit_file', 'lists',
+         'unused_imports', 'kernel_module_globals', 'sibling_caller', 'function_in_subgraph', 'module_level_import',
+         'mixed_role_module', 'internal_in_subgraph', 'internal_calls', 'bare_external_wrap', 'rem_then_rename',
+         'dup_free_then_wrap', 'dup_intf_then_rename', 'replicate', 'dep_twice', 'wrap_without_dep']
 INTRINSICS = {'mod', 'int', 'real', 'max', 'min', 'abs'}
 
 
@@ -69,9 +69,15 @@ def setup_worker(tier, ctx):
 def pick_gate(idx):
     if os.environ.get('C2425_NOGATES'):
         return None
+    if os.environ.get('C2425_GATE'):
+        return os.environ['C2425_GATE']
     if os.environ.get('C2425_ONLYGATES'):
-        return sorted(GATES.values())[idx % len(GATES)]
-    return GATES.get(idx % 32)
+        return GATES[idx % len(GATES)]
+    # one case in three of a 64-cycle is a gated slice; every gate occupies one position of the cycle
+    r = idx % 64
+    if r % 3 == 1 and r // 3 < len(GATES):
+        return GATES[r // 3]
+    return None
 
 
 def gen_project_case(rng, idx):
@@ -280,6 +286,10 @@ def run_sequence(case, k, rng, base, res, bump, tier):
     try:
         sched = L.build_scheduler(root, cfg, None, True, output_dir=str(out))
     except Exception as e:  # pylint: disable=broad-except
+        if label:
+            # hostile constructs of a gated slice (e.g. recursion cycles): graph construction itself is C21's subject
+            res.setdefault('skipped', []).append(PL.loki_frame(e))
+            return False, spec
         res['inconclusive'] = 'scheduler construction failed on the original project: ' + PL.loki_frame(e) + str(e)[:200]
         return False, spec
     names0 = sorted(it.name for it in sched.items)
